@@ -365,6 +365,8 @@ fn run_inst<T: Elem, C: ArrayLength + PartialEq>(ctx: &mut Ctx, rep: &mut Report
     let oplist = ops(ctx.quick());
     let inst = format!("{}x{}", T::NAME, C::USIZE);
     let build = |hist: &[usize]| -> Sys<T, C> {
+        // make reads of memory the library forgot to initialise deterministic (0xA5 pattern)
+        vx_core::util::poison_heap();
         let mut s = Sys::<T, C>::new();
         for &o in hist {
             s.apply(oplist[o]);
@@ -442,9 +444,13 @@ fn run_inst<T: Elem, C: ArrayLength + PartialEq>(ctx: &mut Ctx, rep: &mut Report
     }
 }
 
+/// Stable class of a discrepancy message: the words before the first number / parenthesis / '='
+/// (messages quote cell values, which for uninitialised memory differ from run to run).
 fn short(e: &str) -> String {
-    let s: String = e.chars().filter(|c| !c.is_ascii_digit()).collect();
-    s.split_whitespace().take(8).collect::<Vec<_>>().join("_")
+    let cut = e.find(|c: char| c.is_ascii_digit() || c == '(' || c == '=').unwrap_or(e.len());
+    let head = e[..cut].trim();
+    let head = if head.is_empty() { e } else { head };
+    head.split_whitespace().take(6).collect::<Vec<_>>().join("_")
 }
 
 macro_rules! insts {
@@ -511,6 +517,7 @@ pub fn replay(ctx: &mut Ctx, rep: &mut Report, case: &Value) {
         let _ = &ctx;
         let inst = format!("{}x{}", T::NAME, C::USIZE);
         let r = catch(|| {
+            vx_core::util::poison_heap();
             let mut s = Sys::<T, C>::new();
             for (n, &o) in hist.iter().enumerate() {
                 s.apply(table[o]);
